@@ -290,3 +290,112 @@ func LinFinal(st LinStorage, blobs []LinBlob) uint {
 	}
 	return have
 }
+
+// ---------- sequential histories against the reference map (C01) ----------
+
+// SeqHistory applies `steps` operations, each chosen among receive / fetch / stat (whole blob
+// set) / enumerate (any cursor drawn from the blob names, any limit 1..len+1) / remove on one of
+// the blobs, to st and to the reference map, and asserts after every step that st answered like
+// the map. have is the initial contents (bit i = blobs[i] present); blobs are in ascending ref
+// order. It returns the final contents.
+func SeqHistory(st LinStorage, blobs []LinBlob, have uint, steps int) uint {
+	return seqHistory(st, blobs, have, steps, false)
+}
+
+// SeqReads is SeqHistory restricted to fetch / stat / enumerate.
+func SeqReads(st LinStorage, blobs []LinBlob, have uint, steps int) uint {
+	return seqHistory(st, blobs, have, steps, true)
+}
+
+func seqHistory(st LinStorage, blobs []LinBlob, have uint, steps int, readsOnly bool) uint {
+	ctx := context.Background()
+	for s := 0; s < steps; s++ {
+		kind := vrt.Choice(LinOps)
+		if readsOnly {
+			vrt.Assume(kind != LinReceive && kind != LinRemove)
+		}
+		switch kind {
+		case LinReceive:
+			i := vrt.Choice(len(blobs))
+			sb, err := st.ReceiveBlob(ctx, blobs[i].Ref, &strReader{s: blobs[i].Data})
+			vrt.Assert(err == nil, "receive succeeds")
+			vrt.Assert(sb.Ref == blobs[i].Ref && int(sb.Size) == len(blobs[i].Data), "receive acknowledges the blob with its true size")
+			have |= 1 << uint(i)
+		case LinFetch:
+			i := vrt.Choice(len(blobs))
+			rc, size, err := st.Fetch(ctx, blobs[i].Ref)
+			if have&(1<<uint(i)) != 0 {
+				vrt.Assert(err == nil, "a stored blob is fetched")
+				if err == nil {
+					data, rerr := io.ReadAll(rc)
+					rc.Close()
+					vrt.Assert(rerr == nil && string(data) == blobs[i].Data && int(size) == len(data), "fetch returns the blob's bytes and size")
+				}
+			} else {
+				vrt.Assert(err == os.ErrNotExist, "fetching an absent blob reports os.ErrNotExist")
+			}
+		case LinStat:
+			var refs []blob.Ref
+			for i := range blobs {
+				refs = append(refs, blobs[i].Ref)
+			}
+			var seen uint
+			err := st.StatBlobs(ctx, refs, func(sb blob.SizedRef) error {
+				hit := false
+				for i := range blobs {
+					if blobs[i].Ref == sb.Ref {
+						hit = true
+						vrt.Assert(seen&(1<<uint(i)) == 0, "stat reports a blob at most once")
+						seen |= 1 << uint(i)
+						vrt.Assert(int(sb.Size) == len(blobs[i].Data), "stat reports the true size")
+					}
+				}
+				vrt.Assert(hit, "stat reports only requested blobs")
+				return nil
+			})
+			vrt.Assert(err == nil, "stat succeeds")
+			vrt.Assert(seen == have, "stat reports exactly the stored blobs")
+		case LinEnumerate:
+			after := ""
+			from := vrt.Choice(len(blobs) + 1) // cursor: none, or the name of blob from-1
+			if from > 0 {
+				after = blobs[from-1].Ref.String()
+			}
+			limit := 1 + vrt.Choice(len(blobs)+1)
+			ch := make(chan blob.SizedRef, len(blobs)+2)
+			err := st.EnumerateBlobs(ctx, ch, after, limit)
+			vrt.Assert(err == nil, "enumerate succeeds")
+			var want []int
+			for i := from; i < len(blobs) && len(want) < limit; i++ {
+				if have&(1<<uint(i)) != 0 {
+					want = append(want, i)
+				}
+			}
+			n := 0
+			for sb := range ch {
+				vrt.Assert(n < len(want), "enumerate lists no more than the stored blobs after the cursor, up to the limit")
+				if n < len(want) {
+					vrt.Assert(sb.Ref == blobs[want[n]].Ref && int(sb.Size) == len(blobs[want[n]].Data), "enumerate lists the stored blobs after the cursor in order with their sizes")
+				}
+				n++
+			}
+			vrt.Assert(n == len(want), "enumerate lists every stored blob after the cursor, up to the limit")
+		case LinRemove:
+			i := vrt.Choice(len(blobs))
+			err := st.RemoveBlobs(ctx, []blob.Ref{blobs[i].Ref})
+			vrt.Assert(err == nil, "remove succeeds")
+			have &^= 1 << uint(i)
+		}
+	}
+	return have
+}
+
+// SmallBlobs returns n blobs with distinct small test refs in ascending order.
+func SmallBlobs(n int) []LinBlob {
+	var out []LinBlob
+	data := []string{"a", "bb", "ccc", "dddd"}
+	for i := 0; i < n; i++ {
+		out = append(out, LinBlob{Ref: blob.VerifSmallRef(byte(i + 1)), Data: data[i]})
+	}
+	return out
+}
